@@ -107,7 +107,7 @@ example : Running helper_dosnode_mergeErrors (init helper_dosnode_mergeErrors) 2
 
 /-! ## 3. termination is always reachable -/
 
-/-- **exit_always_reachable.**  From every reachable state in which the pipeline context is done
+/-- **exit_always_reachable** (EF, not AF).  From every reachable state in which the pipeline context is done
 there is a schedule to a state in which every pipeline goroutine has returned (or was never
 started) and every channel that has a pipeline closer is closed.  The schedule is constructed:
 run the goroutine of least rank along its escape edges (context alternatives, closed ranges). -/
@@ -140,16 +140,28 @@ theorem helpers_wf :
       (fun p => subsetOf (violations p) Gen.PipeKnown.sites) = true := by decide +kernel
 
 /-- the recorded findings concern channels left open (W6/W7) only: none of them is a crash, a
-blocked goroutine or a missing `wgDone` -/
+blocked goroutine or a missing `wgDone`.  On this tree no `known:` line is left for C14, so the list
+is EMPTY and the statement is vacuous here; it is what lets `pipeline_can_always_terminate_…` go
+through relative to whatever is recorded.  The example below instantiates it on the list as it was
+when the pdkg.Loop finding was still recorded (and shows that a W1/W2/W5 entry is refused). -/
 theorem known_findings_are_benign : Gen.PipeKnown.sites.all benign = true := by decide
+
+example : ([{ rule := 7, g := "dkg.Loop", c := "dkg.askMembers.out" }] : List Violation).all benign = true ∧
+    ([{ rule := 5, g := "dosnode.mergeErrors.output", c := "" }] : List Violation).all benign = false := by decide
 
 /-- extracted fact: both callers give their pipeline a deadline (`context.WithTimeout`) -/
 theorem callers_set_a_deadline :
     query_sys_ctx0 = "WithTimeout" ∧ query_user_ctx0 = "WithTimeout" ∧ query_url_ctx0 = "WithTimeout" ∧
     grouping_ctx0 = "WithTimeout" := by decide
 
-/-- what 1–3 give for a pipeline whose violations are all recorded benign findings -/
-theorem pipeline_terminates_and_never_crashes (p : Pipeline)
+/-- what 1–3 give for a pipeline whose violations are all recorded benign findings: it never reaches
+the crash configuration, and it CAN ALWAYS terminate — from every reachable state after the deadline
+a terminating schedule EXISTS (EF, not AF: this does not say that every schedule terminates).
+Reading it as "terminates" needs the assumption, not formalised here, that Go's `select` picks
+uniformly at random among the ready alternatives and that the scheduler is fair: the state space
+after cancellation is finite for bounded buffers, so a run that can always reach the quiet state
+reaches it with probability 1. -/
+theorem pipeline_can_always_terminate_and_never_crashes (p : Pipeline)
     (h : subsetOf (violations p) Gen.PipeKnown.sites = true) :
     NoCrash p ∧
     ∀ s, Reach p s → s.ctxDone 0 = true → ∃ s', Path p s s' ∧ Quiet p s' ∧
@@ -159,14 +171,17 @@ theorem pipeline_terminates_and_never_crashes (p : Pipeline)
   have hnc := safe_pipeline_never_crashes p h0 hs
   exact ⟨hnc, fun s hr hc => exit_always_reachable p hl hnc s hr hc⟩
 
-/-- the three query pipelines (system random, user random, URL query) of `handleQuery` -/
-theorem query_pipelines_terminate_and_never_crash :
+/-- the three query pipelines (system random, user random, URL query) of `handleQuery`: no channel
+panic is reachable, and after the deadline a terminating schedule exists from every reachable state
+(EF; termination itself holds with probability 1 under the fairness assumption stated at
+`pipeline_can_always_terminate_and_never_crashes`) -/
+theorem query_pipelines_can_always_terminate_and_never_crash :
     (NoCrash query_sys ∧ NoCrash query_user ∧ NoCrash query_url) ∧
     ∀ p ∈ [query_sys, query_user, query_url], ∀ s, Reach p s → s.ctxDone 0 = true →
       ∃ s', Path p s s' ∧ Quiet p s' := by
-  have h1 := pipeline_terminates_and_never_crashes _ query_sys_wf
-  have h2 := pipeline_terminates_and_never_crashes _ query_user_wf
-  have h3 := pipeline_terminates_and_never_crashes _ query_url_wf
+  have h1 := pipeline_can_always_terminate_and_never_crashes _ query_sys_wf
+  have h2 := pipeline_can_always_terminate_and_never_crashes _ query_user_wf
+  have h3 := pipeline_can_always_terminate_and_never_crashes _ query_url_wf
   refine ⟨⟨h1.1, h2.1, h3.1⟩, ?_⟩
   intro p hp s hr hc
   simp only [List.mem_cons, List.mem_nil_iff, or_false] at hp
@@ -176,16 +191,18 @@ theorem query_pipelines_terminate_and_never_crash :
   · obtain ⟨s', a, b, _⟩ := h3.2 s hr hc; exact ⟨s', a, b⟩
 
 /-- the p2p client pipes (`client.run`: read / decrypt / decode / dispatch / pack / encrypt / send);
-their context is cancel-only (`context.WithCancel` in `newClient`, extracted fact) -/
-theorem p2p_client_pipes_terminate_and_never_crash :
+their context is cancel-only (`context.WithCancel` in `newClient`, extracted fact).  "Can always
+terminate" = a terminating schedule exists from every reachable state after the cancellation (EF). -/
+theorem p2p_client_pipes_can_always_terminate_and_never_crash :
     p2p_client_ctx0 = "WithCancel" ∧ NoCrash p2p_client ∧
     ∀ s, Reach p2p_client s → s.ctxDone 0 = true → ∃ s', Path p2p_client s s' ∧ Quiet p2p_client s' := by
-  have h := pipeline_terminates_and_never_crashes _ p2p_client_wf
+  have h := pipeline_can_always_terminate_and_never_crashes _ p2p_client_wf
   exact ⟨by decide, h.1, fun s hr hc => by obtain ⟨s', a, b, _⟩ := h.2 s hr hc; exact ⟨s', a, b⟩⟩
 
 /-- every fan-in / subscribe helper, driven by well-behaved upstream stages and the usual caller
-loop: never a channel panic, always drains after the deadline, and its output channel is closed -/
-theorem helpers_terminate_and_never_crash :
+loop: never a channel panic; after the deadline a schedule exists from every reachable state (EF) to
+the state where it has drained and its output channel is closed -/
+theorem helpers_can_always_terminate_and_never_crash :
     ∀ p ∈ [helper_dosnode_mergeErrors, helper_dosnode_fanIn, helper_utils_MergeErrors, helper_onchain_merge,
       helper_onchain_mergeError, helper_onchain_first, helper_onchain_firstEvent, helper_p2p_merge,
       helper_dkg_mergeErrors, helper_dkg_fanOut],
@@ -193,7 +210,7 @@ theorem helpers_terminate_and_never_crash :
       ∀ (h : Gi) (gr : Goroutine) (c : Ch), p.gs[h]? = some gr → gr.static = true → gr.daemon = false →
         closesOnAllPaths gr c = true → c < p.chans.length → s'.closed c = true := by
   intro p hp
-  apply pipeline_terminates_and_never_crashes
+  apply pipeline_can_always_terminate_and_never_crashes
   have h := helpers_wf
   rw [List.all_eq_true] at h
   exact h p hp
